@@ -155,6 +155,8 @@ type HarnessResult struct {
 	Queries     int
 	CacheHits   int
 	SolverS     float64
+	PrecQ       int
+	PrecS       float64
 	WallS       float64
 	Samples     []string
 	Functions   []map[string]interface{}
@@ -216,7 +218,9 @@ func runHarness(l *Loaded, pkgPath, name string, cfg Config, reach []string) (*H
 		hr.Queries += s.Queries
 		hr.CacheHits += s.CacheHit
 		hr.SolverS += s.Dur.Seconds()
-		for _, er := range s.Errors {
+		hr.PrecQ += s.PrecQ
+		hr.PrecS += s.PrecDur.Seconds()
+		for _, er := range s.Errors() {
 			hr.Inconcl["solver error: "+er]++
 		}
 	}
@@ -231,7 +235,15 @@ func cmdRun(args []string) int {
 	workers := fs.Int("workers", 0, "")
 	unwind := fs.Int("unwind", 0, "")
 	verbose := fs.Bool("v", false, "")
+	bounds := fs.String("bound", "", "k=v,k=v overrides of zz.Bound")
 	fs.Parse(args)
+	pendingVars = map[string]int{}
+	for _, kv := range strings.Split(*bounds, ",") {
+		if p := strings.SplitN(kv, "=", 2); len(p) == 2 {
+			n, _ := strconv.Atoi(p[1])
+			pendingVars[p[0]] = n
+		}
+	}
 	rest := fs.Args()
 	if len(rest) < 2 {
 		usage()
@@ -268,8 +280,8 @@ func cmdRun(args []string) int {
 }
 
 func printHarness(hr *HarnessResult, verbose bool) {
-	fmt.Printf("harness %s: paths=%d ends=%v obligations=%d discharged=%d violated=%d unknown=%d queries=%d (cache %d) solver=%.2fs wall=%.2fs\n",
-		hr.Name, hr.Paths, hr.Ends, hr.Obligations, hr.Discharged, len(hr.Violations), len(hr.Unknown), hr.Queries, hr.CacheHits, hr.SolverS, hr.WallS)
+	fmt.Printf("harness %s: paths=%d ends=%v obligations=%d discharged=%d violated=%d unknown=%d queries=%d (cache %d, precise %d in %.1fs) solver=%.2fs wall=%.2fs\n",
+		hr.Name, hr.Paths, hr.Ends, hr.Obligations, hr.Discharged, len(hr.Violations), len(hr.Unknown), hr.Queries, hr.CacheHits, hr.PrecQ, hr.PrecS, hr.SolverS, hr.WallS)
 	var labels []string
 	for l := range hr.ByLabel {
 		labels = append(labels, l)
@@ -284,6 +296,13 @@ func printHarness(hr *HarnessResult, verbose bool) {
 	}
 	for m, n := range hr.Inconcl {
 		fmt.Printf("  INCONCLUSIVE x%d: %s\n", n, m)
+	}
+	ur := map[string]int{}
+	for _, u := range hr.Unknown {
+		ur[u.Label+" => "+u.Res]++
+	}
+	for m, n := range ur {
+		fmt.Printf("  UNKNOWN x%d: %s\n", n, m)
 	}
 	seen := map[string]bool{}
 	for _, v := range hr.Violations {
